@@ -32,8 +32,14 @@ type ecase struct {
 
 var run *vlib.Run
 
+var longRE = regexp.MustCompile(`LONG[0-9]+`)
+
 func payload(c *ecase) string {
 	s := strings.Join(c.Payload, "")
+	s = longRE.ReplaceAllStringFunc(s, func(m string) string {
+		n, _ := strconv.Atoi(m[4:])
+		return strings.Repeat("a", n)
+	})
 	return strings.ReplaceAll(s, "NONASCII", "é世")
 }
 
@@ -264,6 +270,69 @@ func one(raw json.RawMessage, c *ecase, i int) {
 	}
 }
 
+// callgrind positions over the whole 64-bit address space (TLC's integers are 32 bit, so these documents are decoded
+// here, with the same position grammar as Callgrind.tla: absolute 0x..., relative +n / -n, * = same as before):
+// every cost line and every call resolves to the address of a location of the profile
+func kernelCallgrind() {
+	fn := func(id uint64, n string) *profile.Function {
+		return &profile.Function{ID: id, Name: n, SystemName: n, Filename: n + ".c"}
+	}
+	um := &profile.Mapping{ID: 1, Start: 0x400000, Limit: 0x500000, File: "/bin/prog", HasFunctions: true}
+	km := &profile.Mapping{ID: 2, Start: 0xffffffff80000000, Limit: 0xffffffffc0000000, File: "[kernel.kallsyms]", HasFunctions: true}
+	hm := &profile.Mapping{ID: 3, Start: 0x7fff00000000, Limit: 0x7fff10000000, File: "/lib/libc.so", HasFunctions: true}
+	fs := []*profile.Function{fn(1, "umain"), fn(2, "ksys"), fn(3, "kirq"), fn(4, "libf"), fn(5, "ktop")}
+	loc := func(id uint64, m *profile.Mapping, a uint64, f *profile.Function) *profile.Location {
+		return &profile.Location{ID: id, Mapping: m, Address: a, Line: []profile.Line{{Function: f, Line: int64(id)}}}
+	}
+	ls := []*profile.Location{loc(1, um, 0x401000, fs[0]), loc(2, km, 0xffffffff81000000, fs[1]), loc(3, km, 0xffffffff81000040, fs[2]),
+		loc(4, hm, 0x7fff00001234, fs[3]), loc(5, km, 0xffffffffbfffffff, fs[4])}
+	p := &profile.Profile{SampleType: []*profile.ValueType{{Type: "samples", Unit: "count"}}, PeriodType: &profile.ValueType{Type: "cpu", Unit: "ns"}, Period: 1,
+		Function: fs, Mapping: []*profile.Mapping{um, km, hm}, Location: ls,
+		Sample: []*profile.Sample{
+			{Location: []*profile.Location{ls[1], ls[0]}, Value: []int64{5}},
+			{Location: []*profile.Location{ls[2], ls[1], ls[0]}, Value: []int64{3}},
+			{Location: []*profile.Location{ls[4], ls[3], ls[0]}, Value: []int64{2}},
+			{Location: []*profile.Location{ls[3]}, Value: []int64{1}},
+			{Location: []*profile.Location{ls[4]}, Value: []int64{9}},
+		}}
+	want := map[uint64]bool{}
+	for _, l := range ls {
+		want[l.Address] = true
+	}
+	for _, extra := range [][]string{nil, {"-call_tree"}, {"-cum"}} {
+		r := render(p, append([]string{"-callgrind"}, extra...)...)
+		run.Count("callgrind-64bit|" + strings.Join(extra, ""))
+		if r.Err != nil || r.Panic != nil {
+			run.Violate("callgrind", "callgrind-error:64bit", fmt.Sprint(r.Err, r.Panic), nil, nil)
+			continue
+		}
+		nodes, edges, err := vdrv.Callgrind(r.File("out"))
+		if err != nil {
+			run.Violate("callgrind", "callgrind-positions:64bit", fmt.Sprintf("%v\n%s", err, r.File("out")), nil, nil)
+			continue
+		}
+		got := map[uint64]bool{}
+		for _, n := range nodes {
+			got[n.Addr] = true
+		}
+		for _, e := range edges {
+			got[e.SrcAddr], got[e.DstAddr] = true, true
+		}
+		for a := range got {
+			if !want[a] {
+				run.Violate("callgrind", "callgrind-positions:64bit", fmt.Sprintf("a position resolves to %#x, which is no address of the profile\n%s", a, r.File("out")), nil, nil)
+				break
+			}
+		}
+		for a := range want {
+			if !got[a] {
+				run.Violate("callgrind", "callgrind-positions:64bit", fmt.Sprintf("no position resolves to %#x\n%s", a, r.File("out")), nil, nil)
+				break
+			}
+		}
+	}
+}
+
 func main() {
 	run = vlib.NewRun("C18")
 	var err error
@@ -283,6 +352,7 @@ func main() {
 			run.Sample(json.RawMessage(raw))
 		}
 	})
+	kernelCallgrind()
 	dotF.Close()
 	cgF.Close()
 	run.Counter("dot_documents", nDot)
